@@ -458,7 +458,9 @@ func ResolveAnchors(p *an.Prog) {
 	prim("setExpiringItem", func(fn *ssa.Function) bool {
 		return callsTxn(fn, "Set", "SetEntry") && hasIfaceParam(fn) && hasDurationParam(fn)
 	})
-	prim("loopItem", func(fn *ssa.Function) bool { return callsTxn(fn, "NewIterator") && hasFuncParam(fn) && hasIfaceParam(fn) })
+	prim("loopItem", func(fn *ssa.Function) bool {
+		return callsTxn(fn, "NewIterator") && hasFuncParam(fn) && hasIfaceParam(fn)
+	})
 	// version helpers: (txn) (int, error) reads it; (txn, int) error either writes it (reaches a Set) or compares it
 	reachesTxn := func(fn *ssa.Function, names ...string) bool {
 		_, ok := p.ReachesCall(fn, func(c ssa.CallInstruction) bool { return isBadgerTxnMethod(an.CallObj(c), names...) })
